@@ -55,14 +55,21 @@ package prefilter
 
 //@ spec func wfTeddy(t *Teddy) bool = t != nil && t.masks != nil && 0 <= t.minLen && len(t.patterns) <= 4096 && (forall b, j :: 0 <= b && b < len(t.buckets) && 0 <= j && j < len(t.buckets[b]) ==> 0 <= t.buckets[b][j] && t.buckets[b][j] < len(t.patterns)) && (forall k :: 0 <= k && k < len(t.patterns) ==> len(t.patterns[k]) >= t.minLen && len(t.patterns[k]) >= 1)
 //@ spec func teddyOcc(t *Teddy, h []byte, i int) bool = exists k :: 0 <= k && k < len(t.patterns) && occAt(h, t.patterns[k], i)
+// completeness ("never skips"): bucketOcc(b, i): some literal of bucket b occurs at i; every literal is in one of the 8 buckets
+//@ spec func bucketOcc(t *Teddy, h []byte, b int, i int) bool = 0 <= b && b < len(t.buckets) && (exists j :: 0 <= j && j < len(t.buckets[b]) && occAt(h, t.patterns[t.buckets[b][j]], i))
+//@ spec func allBucketed(t *Teddy) bool = len(t.buckets) <= 8 && (forall k :: 0 <= k && k < len(t.patterns) ==> (exists b, j :: 0 <= b && b < len(t.buckets) && 0 <= j && j < len(t.buckets[b]) && t.buckets[b][j] == k))
+// maskCovers(m, i): every bucket with an occurrence at i has its bit set in m (written out per bucket: no variable shifts)
+//@ spec func maskCovers(t *Teddy, h []byte, m uint8, i int) bool = (bucketOcc(t, h, 0, i) ==> m & 1 != 0) && (bucketOcc(t, h, 1, i) ==> m & 2 != 0) && (bucketOcc(t, h, 2, i) ==> m & 4 != 0) && (bucketOcc(t, h, 3, i) ==> m & 8 != 0) && (bucketOcc(t, h, 4, i) ==> m & 16 != 0) && (bucketOcc(t, h, 5, i) ==> m & 32 != 0) && (bucketOcc(t, h, 6, i) ==> m & 64 != 0) && (bucketOcc(t, h, 7, i) ==> m & 128 != 0)
 
 //@ func (*Teddy).verifyBucket
 //@   props C16 C07 C05
 //@   requires wfTeddy(t)
 //@   ensures result0 == -1 || (result0 == pos && 0 <= result1 && result1 < len(t.patterns) && occAt(haystack, t.patterns[result1], pos))
 //@   ensures result0 == -1 ==> result1 == -1
+//@   ensures result0 == -1 && 0 <= pos && pos < len(haystack) ==> !bucketOcc(t, haystack, bucket, pos)
 //@   loop 1: invariant -1 <= rangeindex && rangeindex <= rangelen && rangelen <= 281474976710656 && 0 <= bucket && bucket < len(t.buckets) && rangelen == len(t.buckets[bucket])
 //@   loop 1: invariant forall j :: 0 <= j && j < rangelen ==> 0 <= t.buckets[bucket][j] && t.buckets[bucket][j] < len(t.patterns)
+//@   loop 1: invariant forall j :: 0 <= j && j <= rangeindex ==> !occAt(haystack, t.patterns[t.buckets[bucket][j]], pos)
 //@   loop 1: decreases rangelen - rangeindex
 
 //@ func (*Teddy).findScalar
@@ -82,6 +89,10 @@ package prefilter
 //@ trusted func (*Teddy).findSIMD
 //@   requires wfTeddy(t)
 //@   ensures pos == -1 || (0 <= pos && pos < len(haystack))
+// ASSUMED of the vector kernel: it reports the first fingerprint candidate, every occurrence of a literal is one, and
+// the mask has the bit of every bucket that holds a literal occurring there
+//@   ensures pos == -1 ==> (forall i :: 0 <= i ==> !teddyOcc(t, haystack, i))
+//@   ensures pos >= 0 ==> (forall i :: 0 <= i && i < pos ==> !teddyOcc(t, haystack, i)) && maskCovers(t, haystack, bucketMask, pos)
 
 //@ func (*Teddy).findMatchScalar
 //@   props C16 C07 C05
